@@ -1258,6 +1258,8 @@ class Channel(ClosingContextManager):
         m.add_byte(cMSG_CHANNEL_EOF)
         m.add_int(self.remote_chanid)
         self.eof_sent = True
+        # wake senders blocked on the window: they must notice eof_sent
+        self.out_buffer_cv.notify_all()
         self._log(DEBUG, "EOF sent ({})".format(self._name))
         return m
 
